@@ -277,7 +277,7 @@ Section Reader.
       | Ok lay =>
         do r <- struct_loop e aligned pos (map (fun f => (meta_of f, read_ty fuel (f_ty f))) fs) (l_offs lay) s pos bb_empty [] [] [];
         let '(vals, sizes, pos') := r in
-        Ok (VStruct vals sizes, if aligned then pos' + pad_to pos' (l_align lay) else pos')
+        Ok (VStruct vals sizes, if aligned then pos' + pad_to pos' (eff_align (l_align lay)) else pos')
       end
     | TUnion _ fs aligned =>
       let lay := layout_union c aligned fs in
